@@ -802,8 +802,16 @@ static void worker_main(Property &prop, const Args &a, int w, uint64_t start, ui
 			};
 			s.run(best);
 			tests = s.tests;
+			// in-process shrinking is only sound if the process carries no state from one execution to the next: the minimised plan
+			// must show the same class in a fresh process, otherwise start over from the original plan with fresh processes only
+			IsoResult chk = run_isolated(best);
+			if (!((chk.kind == IsoResult::VIOL || chk.kind == IsoResult::CRASH || chk.kind == IsoResult::HANG) && sanitize_cls(chk.cls) == cls))
+			{
+				inproc_ok = false;
+				best = plan;
+			}
 		}
-		else
+		if (!inproc_ok)
 		{
 			// process state matters: confirm and shrink in fresh processes
 			IsoResult r1 = run_isolated(plan), r2 = run_isolated(plan);
